@@ -26,7 +26,7 @@ FUNCTIONS = ["SectionOutput.add_content/write/clear/overwrite/_pop_stream_conten
 PART = {}
 BOUNDS = {"quick": "E2: all 0 <= L <= 4096, 1 <= W <= 512; E1: 3 operations after creating 2-3 sections, each op = (section, kind in {write_line, write 2 lines, overwrite, clear(), clear(1), clear(2)}, text of length in {0, 1, W, W+1, 2W+1}); width 3 with 2 sections (3 ops), width 5 with 3 sections (2 ops), plain output (2 ops)",
           "thorough": "3 operations on 2 sections (widths 2, 5) and on 3 prefilled sections (widths 3, 8), plain output with 3 operations"}
-OUTSIDE = ["clear(n) with n larger than the number of lines the section holds (skipped)", "tabs (the code counts a tab as 8 columns; the emulator has no tab stops)", "more than 3 sections, sequences longer than stated", "random length-40 sequences", "style tags inside section lines"]
+OUTSIDE = ["indentation scopes opened on the parent output while sections exist (only scopes on the section itself)", "clear(n) with n larger than the number of lines the section holds (skipped)", "tabs (the code counts a tab as 8 columns; the emulator has no tab stops)", "more than 3 sections, sequences longer than stated", "random length-40 sequences", "style tags inside section lines"]
 STUBS = ["Terminal.width -> the chosen width W (class-level property patched from the harness)", "E2: strings abstracted to their length; self.remove_format(x) -> x; no tabs"]
 ASSUMPTIONS = ["terminal model: a line of exactly W characters followed by LF uses one row (pending-wrap), as xterm-like terminals do"]
 
@@ -123,11 +123,42 @@ def _sequence_case(w, nsec, ops, ansi, prefill=False):
             secs[0].write_line("S")
             model[0].append("S")
             appended.append("S")
-        for k, (si, kind, li) in enumerate(ops):
+        for k, op in enumerate(ops):
+            (si, kind, li), ind = op[:3], (op[3] if len(op) > 3 else 0)
             si = si % nsec
             s, m = secs[si], model[si]
             t = _text(w, li, LETTERS[k])
-            if kind == "write_line":
+            if ind:                                # the operation runs inside an indentation scope opened on its section: every non-empty
+                pad = " " * ind                    # line it writes is shown with that indentation - also after later redraws
+                scope = s.indent(ind)
+            else:
+                pad, scope = "", None
+            if kind == "overwrite_same":           # overwrite with exactly the first line the section currently shows
+                kind = "overwrite"
+                if m and m[0].strip() != "":
+                    t = m[0].strip()
+            if kind == "write_tail":               # a text that ends in a line break: the section then ends in an empty line
+                s.write_line(t + "\n")
+                m.extend([pad + t if t else t, ""])
+                appended.extend([pad + t if t else t, ""])
+                kind = None
+            t_shown = pad + t if t else t
+            if kind is None:
+                pass
+            elif kind == "write_line" and ind:
+                s.write_line(t)
+                m.append(t_shown)
+                appended.append(t_shown)
+            elif kind == "write_two" and ind:
+                s.write_line(t + "\n" + "z")
+                m.extend([t_shown, pad + "z"])
+                appended.extend([t_shown, pad + "z"])
+            elif kind == "overwrite" and ind:
+                s.overwrite(t)
+                del m[:]
+                m.append(t_shown)
+                appended.append(t_shown)
+            elif kind == "write_line":
                 s.write_line(t)
                 m.append(t)
                 appended.append(t)
@@ -146,12 +177,16 @@ def _sequence_case(w, nsec, ops, ansi, prefill=False):
             else:
                 n = 1 if kind == "clear1" else 2
                 if n > len(m):
+                    if scope is not None:
+                        scope.__exit__(None, None, None)
                     continue                       # clearing more lines than the section holds is outside a "partial clear"
                 if ansi and m and kf.excluded("C15-clear-n-wrapped", any(len(x) > w for x in m[-n:])):
                     return True
                 s.clear(n)
                 if m:
                     del m[-n:]
+            if scope is not None:
+                scope.__exit__(None, None, None)
         data = st.fetch()
         if not ansi:
             # degrades to plain appended lines without any control code
@@ -164,8 +199,8 @@ def _sequence_case(w, nsec, ops, ansi, prefill=False):
             return False
         # what each section reports as its content is what the model holds
         for s, m in zip(secs, model):
-            if s.content != "".join(x + "\n" for x in m):
-                return False
+            if [x.rstrip(" ") for x in s.content.split("\n")] != [x.rstrip(" ") for x in "".join(x + "\n" for x in m).split("\n")]:
+                return False                       # (blanks at the end of a line are invisible: an indented empty line may be kept as blanks)
         return True
     finally:
         termmod.Terminal.width = saved
@@ -184,6 +219,26 @@ def sequence(s1: int, k1: int, l1: int, s2: int, k2: int, l2: int, s3: int, k3: 
     """
     nsec = PART["nsec"]
     ops = [(conc_int(s, 0, nsec - 1), KINDS[conc_int(k, 0, 5)], conc_int(l, 0, NLEN - 1)) for s, k, l in ((s1, k1, l1), (s2, k2, l2), (s3, k3, l3), (s4, k4, l4))][: PART["nops"]]
+    return untraced(_sequence_case, PART["w"], nsec, ops, PART["ansi"], PART.get("prefill", False))
+
+
+KINDS_X = KINDS + ["write_tail", "overwrite_same"]
+LENS_X = [1, 3]           # indices into the length menu: 1 character, W + 1 characters
+INDS_X = [0, 2]
+
+
+def sequence_indent(s1: int, k1: int, l1: int, i1: int, s2: int, k2: int, l2: int, i2: int, s3: int, k3: int, l3: int, i3: int) -> bool:
+    """
+    pre: 0 <= s1 < PART["nsec"] and 0 <= s2 < PART["nsec"] and 0 <= s3 < PART["nsec"]
+    pre: 0 <= k1 < 8 and 0 <= k2 < 8 and 0 <= k3 < 8
+    pre: 0 <= l1 < 2 and 0 <= l2 < 2 and 0 <= l3 < 2 and 0 <= i1 < 2 and 0 <= i2 < 2 and 0 <= i3 < 2
+    pre: s1 == PART["s1"] and i1 == PART["i1"] and (PART.get("k1") is None or k1 == PART["k1"])
+    pre: PART["nops"] > 2 or (s3 == 0 and k3 == 0 and l3 == 0 and i3 == 0)
+    post: _
+    """
+    nsec = PART["nsec"]
+    ops = [(conc_int(s, 0, nsec - 1), KINDS_X[conc_int(k, 0, 7)], LENS_X[conc_int(l, 0, 1)], INDS_X[conc_int(i, 0, 1)])
+           for s, k, l, i in ((s1, k1, l1, i1), (s2, k2, l2, i2), (s3, k3, l3, i3))][: PART["nops"]]
     return untraced(_sequence_case, PART["w"], nsec, ops, PART["ansi"], PART.get("prefill", False))
 
 
@@ -284,5 +339,15 @@ def conditions(tier):
                               "part": {"w": w, "nsec": nsec, "nops": nops, "ansi": ansi, "s1": s1, "k1": k1, "l1": l1, "prefill": prefill},
                               "bounds": "width %d, %d sections%s, %d operations, first on section %d%s; the others symbolic over sections x %r x text lengths {0,1,W,W+1,2W+1}; %s" % (
                                   w, nsec, " (each prefilled with one line)" if prefill else "", nops, s1, "" if k1 is None else " = %s(text length #%d)" % (KINDS[k1], l1), KINDS, "ANSI" if ansi is True else ("plain output" if ansi is False else "ANSI-capable stream with a formatter that disables ANSI"))})
+    # indentation scopes around the operations, texts ending in a line break, overwriting with the text already shown
+    iconf = [(5, 2, 2, True, True), (5, 2, 2, False, False)] if quick else [(5, 2, 3, True, True), (4, 3, 2, True, True), (5, 2, 3, False, False)]
+    for w, nsec, nops, ansi, prefill in iconf:
+        for s1 in range(nsec):
+            for i1 in range(2):
+                for k1 in ([None] if nops == 2 else range(8)):
+                    conds.append({"name": "sequence_indent[w=%d,%dsec,%dops,%s,first=s%d.indent%d%s]" % (w, nsec, nops, "ansi" if ansi else "plain", s1, INDS_X[i1], "" if k1 is None else "." + KINDS_X[k1]),
+                                  "fn": sequence_indent, "timeout": t, "part": {"w": w, "nsec": nsec, "nops": nops, "ansi": ansi, "s1": s1, "i1": i1, "k1": k1, "prefill": prefill},
+                                  "bounds": "width %d, %d sections%s, %d operations over sections x %r x text lengths {1, W+1} x indentation scope {0, 2} on the section; %s" % (
+                                      w, nsec, " (prefilled)" if prefill else "", nops, KINDS_X, "ANSI" if ansi else "plain output")})
     conds.append({"name": "sequence_twin", "fn": sequence_twin, "timeout": t, "expect": "refute", "part": {"w": 3, "nsec": 2, "nops": 3, "ansi": True, "s1": 0, "k1": 0, "l1": 3}, "bounds": "reachability twin"})
     return conds
